@@ -645,7 +645,7 @@ func writeEvidence(id, tier string, seed int64, t0 time.Time, reports []*interp.
 		"assertion_queries":                   assertQ,
 		"inconclusive_queries":                unknowns,
 		"solver_time_s":                       round1(solverS),
-		"solver":                              "z3 4.8.12 (z3 -in, push/pop per path and query)",
+		"solver":                              solverVersion() + " (-in, one process per worker, push/pop per query)",
 		"bounds":                              spec.Bounds[tier],
 		"outside_the_claim":                   spec.Outside,
 		"incomplete":                          incomplete,
@@ -684,4 +684,13 @@ func max1(n int) int {
 func round1(f float64) float64 {
 	v, _ := strconv.ParseFloat(fmt.Sprintf("%.1f", f), 64)
 	return v
+}
+
+func solverVersion() string {
+	bin := interp.DefaultSolver()
+	out, err := exec.Command(bin, "--version").Output()
+	if err != nil {
+		return bin
+	}
+	return strings.TrimSpace(string(out)) + " [" + bin + "]"
 }
